@@ -238,7 +238,7 @@ class ExprMixin:
             return Val(deps=base.deps | key.deps, callee=base.callee)
         v = self.read_elem(base, key, node, fancy=fancy)
         if not base.aliases():
-            v = Val(deps=base.deps | key.deps, tags=base.tags & {"indexarr", "mask"})
+            v = Val(deps=base.deps | key.deps, tags=base.tags & {"indexarr", "mask", "labels"})
         return v
 
     def e_Starred(self, node):
@@ -269,6 +269,11 @@ class ExprMixin:
                 elems = [self.read_elem(l), self.read_elem(r)]
                 o = self.new_container("list", node, elem=join_all(elems))
                 return Val(refs=[o.oid], deps=l.deps | r.deps)
+        if isinstance(node.op, ast.Mult):
+            for side in (l, r):
+                if side.refs and all(self.obj(o).cls == "list" for o in side.refs):
+                    o = self.new_container("list", node, elem=self.read_elem(side))
+                    return Val(refs=[o.oid], deps=l.deps | r.deps)
         if (l.tags | r.tags) & {"indexarr"}:
             tags.add("indexarr")
         if (l.tags | r.tags) & {"mask"} and isinstance(node.op, (ast.BitAnd, ast.BitOr, ast.BitXor)):
